@@ -162,6 +162,10 @@ def world_simplifications(world):
         s = _clone(world)
         s["worklist"]["max_volume_default"] = False
         yield s
+    if w.get("flag_type"):
+        s = _clone(world)
+        s["worklist"]["flag_type"] = None
+        yield s
     if w.get("max_volume") != 950:
         s = _clone(world)
         s["worklist"]["max_volume"] = 950
